@@ -225,11 +225,15 @@ func genOp(t *rapid.T, g *genState, thorough bool) Op {
 	case w < 40 && g.last() > 0:
 		// HardState-only save
 		op := Op{Kind: "save"}
-		if rapid.IntRange(0, 9).Draw(t, "hsKind") < 6 {
+		if k := rapid.IntRange(0, 11).Draw(t, "hsKind"); k < 6 {
 			// commit advance only: the WAL does not fsync this
 			if g.commit < g.last() {
 				g.commit += 1 + uint64(rapid.IntRange(0, int(g.last()-g.commit-1)).Draw(t, "commitAdv"))
 			}
+		} else if k >= 10 {
+			// the vote alone changes (a node that entered the term without voting grants its vote
+			// later): must be on stable storage like a term change
+			g.vote = 1 + g.vote%3
 		} else {
 			g.term += uint64(rapid.IntRange(1, 3).Draw(t, "termAdv"))
 			g.vote = uint64(rapid.IntRange(0, 3).Draw(t, "vote"))
